@@ -22,6 +22,10 @@ Two streams (this module also hosts the machinery shared with C03, which imports
 """
 from __future__ import annotations
 
+import os
+
+os.environ.setdefault("OMP_NUM_THREADS", "1")  # many small solves; oversubscribed hosts
+
 import numpy as np
 
 from harness import core, stubs
@@ -388,7 +392,8 @@ def gen_run_case(rng, alg=None, cone=None, chain=None):
             for a_ in range(m):
                 L[a_][a_] = rng.choice([0.0625, 0.125, 0.25, 0.5])
                 for b_ in range(a_):
-                    L[a_][b_] = rng.choice([0.0, 0.0, 0.0625, -0.0625, 0.125, -0.125]) if corr else 0.0
+                    # off-diagonal = k × diagonal: correlation k/sqrt(k²+1) ∈ {0, ±0.71, ±0.89, ±0.95}
+                    L[a_][b_] = rng.choice([0, 0, 1, -1, 2, -2, 3, -3]) * L[a_][a_] if corr else 0.0
             Ls.append(L)
         case.update({"noise_var": 0.0625, "conf": rng.choice(conf), "L": Ls,
                      "mean_err": [[core.dyadic(rng, -2, 2, 3) for _ in range(m)] for _ in range(n)]})
@@ -402,6 +407,124 @@ def gen_run_case(rng, alg=None, cone=None, chain=None):
                          "conf": rng.choice([64, 256, 1024] if alg.startswith("PaVeBaGP") else [16, 64, 256]
                                             if alg.startswith("PaVeBaPartial") else [8, 32, 128])})
     return case
+
+
+# correlated ellipsoids: L = u·[[a, 0], [±b, c]] (dyadic), ρ = b/sqrt(b²+c²) ∈ {0.6, 0.8, 0.89, 0.95}
+ELL_SHAPES = [(3, 4), (4, 3), (2, 1), (3, 1)]
+
+
+def _ell_L(rng):
+    b, c = rng.choice(ELL_SHAPES)
+    sgn = rng.choice([1, -1])
+    a = rng.choice([1, 2, 5, 10]) * rng.choice([1.0, 0.5])  # anisotropy 1–10× either way
+    u = rng.choice([0.03125, 0.0625])
+    return [[u * a * 4, 0.0], [u * sgn * b, u * c]]
+
+
+def _wrong_factor(L):
+    """factor of the ROTATED ellipsoid {x : ‖chol(Σ⁻¹)(x−c)‖ ≤ α} (a plausible slip for `sqrtm(Σ⁻¹)`):
+    used only to PLACE centres where the true and the rotated region disagree robustly"""
+    S = np.array(L) @ np.array(L).T
+    return np.linalg.inv(np.linalg.cholesky(np.linalg.inv(S)))
+
+
+def _support(W, L):
+    return np.array([float(np.linalg.norm(np.array(L).T @ w)) for w in np.asarray(W, dtype=float)])
+
+
+def _cover_margin(W, c1, L1, c2, L2, a, t):
+    """max over z∈E₁, z'∈E₂ of the worst facet margin of W(z'−z) − t (numeric, generator only)"""
+    import cvxpy as cp
+
+    W = np.asarray(W, dtype=float)
+    m = W.shape[1]
+    u1, u2, mu = cp.Variable(m), cp.Variable(m), cp.Variable()
+    cons = [cp.norm(u1) <= a, cp.norm(u2) <= a,
+            W @ (np.asarray(c2) - np.asarray(c1) + np.asarray(L2) @ u2 - np.asarray(L1) @ u1) - t >= mu]
+    pr = cp.Problem(cp.Maximize(mu), cons)
+    pr.solve(solver=cp.CLARABEL)
+    return float(mu.value)
+
+
+def gen_ellcorr_case(rng, alg, scenario):
+    """two designs with strongly correlated ellipsoidal regions whose centres are placed so that the decisive
+    pair decision is robust (≥ 10 % of the region extent from the boundary) for the displayed ellipsoid
+    {z : (z−c)ᵀΣ⁻¹(z−c) ≤ α²} and would be the opposite for the ellipsoid rotated by using chol(Σ⁻¹);
+    scenario: "dom-no" (no certificate), "dom-yes" (certificate), "cov-yes" (can still be covered)."""
+    cone = rng.choice(["orthant2", "orthant2", "acute2", "obtuse2"]) if scenario != "cov-yes" else "orthant2"
+    W = np.array(EXACT_CONES[cone][0], dtype=float)
+    conf = {"PaVeBa": 4, "PaVeBaGP-DE": 32, "PaVeBaPartialGP-ell": 16}[alg]
+    noise_var = 0.0625
+    X = [[0.0, 0.0], [0.125, 0.625], [0.25, 0.25]]
+    # the radius α the real schedule will use in round 1
+    kw = {"conf_contraction": conf, "noise_var": noise_var, "epsilon": 0.125, "delta": 0.05}
+    if alg == "PaVeBa":
+        a_ = stubs.build(alg, in_data=X, out_data=np.zeros((3, 2)), W=W.tolist(), **kw)
+        a_.round = 1
+        alpha = float(a_.compute_radius())
+    else:
+        cls = stubs.ScriptedModelList if alg.startswith("PaVeBaPartial") else stubs.ScriptedModel
+        a_ = stubs.build(alg, in_data=X, out_data=np.zeros((3, 2)), W=W.tolist(),
+                         model=cls(np.array(X), np.zeros((3, 2)), np.ones((3, 2))), **kw)
+        a_.round = 1
+        alpha = float(a_.compute_alpha())
+    for _ in range(40):
+        L0, L1 = _ell_L(rng), _ell_L(rng)
+        if rng.random() < 0.5:
+            L1 = [list(r) for r in L0]
+        t_true = _support(W, L0) + _support(W, L1)
+        t_wrong = _support(W, _wrong_factor(L0)) + _support(W, _wrong_factor(L1))
+        base = np.array([core.dyadic(rng, -8, 8, 3) for _ in range(2)])
+        if scenario == "dom-no":
+            k = int(np.argmin(t_wrong / t_true))
+            if not 1.1 * t_wrong[k] < 0.9 * t_true[k]:
+                continue
+            target = 1.3 * np.maximum(t_true, t_wrong)
+            target[k] = (1.1 * t_wrong[k] + 0.9 * t_true[k]) / 2
+            c1 = base + alpha * np.linalg.solve(W, target)
+            eps = 0.125
+        elif scenario == "dom-yes":
+            k = int(np.argmax(t_wrong / t_true))
+            if not 1.1 * t_true[k] < 0.9 * t_wrong[k]:
+                continue
+            target = 1.3 * np.maximum(t_true, t_wrong)
+            target[k] = (1.1 * t_true[k] + 0.9 * t_wrong[k]) / 2
+            c1 = base + alpha * np.linalg.solve(W, target)
+            eps = 0.125
+        else:
+            # design 1 sits below design 0 along the long axis of design 0's ellipsoid
+            S0 = np.array(L0) @ np.array(L0).T
+            lam, V = np.linalg.eigh(S0)
+            v = V[:, -1] * (1.0 if V[:, -1].sum() >= 0 else -1.0)
+            ext = alpha * float(np.sqrt(lam[-1]))
+            eps = 2.0 ** np.floor(np.log2(max(0.05 * ext, 2.0 ** -12)))
+            sl = eps * real_alpha_vec(W)
+            c1 = None
+            for d in (0.6, 0.8, 1.0, 1.2, 1.4, 1.6):
+                cand = base - d * ext * v
+                mt = _cover_margin(W, base, L0, cand, L1, alpha, sl)
+                mw = _cover_margin(W, base, _wrong_factor(L0), cand, _wrong_factor(L1), alpha, sl)
+                if mt > 0.1 * ext and mw < -0.1 * ext:
+                    c1 = cand
+                    break
+            if c1 is None:
+                continue
+        c1 = np.round(np.asarray(c1) * 1024) / 1024
+        far = base + np.array([40.0, -40.0]) * alpha  # incomparable bystander
+        n = rng.choice([2, 3])
+        Y = [list(map(float, base)), list(map(float, c1)), list(map(float, far))][:n]
+        Ls = [L0, L1, _ell_L(rng)][:n]
+        return {"kind": "run", "shape": "ellcorr-" + scenario, "alg": alg, "cone": cone, "eps": float(eps),
+                "delta": 0.05, "n": n, "in_data": X[:n], "out_data": Y, "seed": rng.randrange(10 ** 6), "rounds": 1,
+                "noise_var": noise_var, "conf": conf, "L": Ls, "mean_err": [[0.0, 0.0]] * n,
+                "stub_model": alg == "PaVeBa"}
+    return None
+
+
+def real_alpha_vec(W):
+    from harness.cones import real_order
+
+    return np.asarray(real_order(np.asarray(W).tolist()).ordering_cone.alpha, dtype=float).reshape(-1)
 
 
 def gen(ctx):
@@ -421,6 +544,18 @@ def gen(ctx):
             for cone in cones:
                 for _ in range(2):
                     yield gen_run_case(rng, alg, cone=cone, chain=True)
+        # strongly correlated / anisotropic ellipsoids with the decisive pair placed robustly
+        for alg in ("PaVeBaGP-DE", "PaVeBa", "PaVeBaPartialGP-ell"):
+            for scenario in ("dom-no", "dom-yes", "cov-yes"):
+                for _ in range(2 if alg != "PaVeBaPartialGP-ell" else 1):
+                    c = gen_ellcorr_case(rng, alg, scenario)
+                    if c is not None:
+                        yield c
+    for _ in range(ctx.n(0, 300)):
+        c = gen_ellcorr_case(rng, rng.choice(["PaVeBaGP-DE", "PaVeBa", "PaVeBaPartialGP-ell"]),
+                             rng.choice(["dom-no", "dom-yes", "cov-yes"]))
+        if c is not None:
+            yield c
     for _ in range(ctx.n(150, 6000)):
         yield gen_auer_case(rng)
     nmax = 7 if ctx.tier == "quick" else 10
@@ -728,6 +863,12 @@ def build_run_algorithm(case):
     X, Y = np.array(case["in_data"], dtype=float), np.array(case["out_data"], dtype=float)
     m = Y.shape[1]
     common = dict(epsilon=case["eps"], delta=case["delta"], noise_var=case["noise_var"], conf_contraction=case["conf"])
+    if name == "PaVeBa" and case.get("stub_model"):
+        # arbitrary (correlated) posterior handed to the real PaVeBa object: the empirical model is replaced
+        a = stubs.build(name, in_data=X, out_data=Y, W=W, **common)
+        covs = np.array([np.array(L, dtype=float) @ np.array(L, dtype=float).T for L in case["L"]])
+        a.model = stubs.ScriptedModel(X, Y + np.array(case["mean_err"], dtype=float), covs)
+        return a
     if name == "PaVeBa":
         return stubs.build(name, in_data=X, out_data=Y, W=W, **common)
     if name == "Auer":
